@@ -5,7 +5,7 @@ import itertools
 import math
 from functools import partial
 
-from common import Outcome, close, h2f, np, rng_for, run_driver
+from common import f2h, Outcome, close, h2f, np, rng_for, run_driver
 
 LEVEL = "proof"
 EXPLANATION = ("Theorems (Lean): the null statistics are the detector's statistic with the detector's parameters on the re-splits (wiring, job partition irrelevant); "
@@ -41,7 +41,7 @@ def formulas(b: int, m: int, mt: int) -> dict:
             "approximate-spec": (b + 1) / (m + 1) - integral, "approximate-as-coded": (b + 1) / (m + 1) - 0.5 / mt * integral}
 
 
-def one(out: Outcome, rng, name, cls, params, ref, test, K, method, lines, expect, jobs=(1,)) -> None:
+def one(out: Outcome, rng, name, cls, params, ref, test, K, method, lines, expect, jobs=(1,), user_mt=None) -> None:
     n, m = len(ref), len(test)
     X, Y = np.array(ref), np.array(test)
     if name == "MMD":
@@ -49,14 +49,15 @@ def one(out: Outcome, rng, name, cls, params, ref, test, K, method, lines, expec
     seed = rng.randint(0, 10**6)
     results = []
     for j in jobs:
-        cb = PermutationTestDistanceBased(num_permutations=K, random_state=seed, num_jobs=j, method=method, name="perm")
+        cb = PermutationTestDistanceBased(num_permutations=K, random_state=seed, num_jobs=j, method=method, name="perm",
+                                          **({} if user_mt is None else {"total_num_permutations": user_mt}))
         det = cls(callbacks=[cb], **params)
         det.fit(X=X)
         res, logs = det.compare(X=Y)
         results.append((float(res.distance), [float(v) for v in logs["perm"]["permuted_statistics"]], float(logs["perm"]["p_value"]),
                         float(logs["perm"]["observed_statistic"])))
     rep = {"detector": name, "params": {k: (v if not callable(v) else "rbf") for k, v in params.items()}, "ref": ref, "test": test,
-           "num_permutations": K, "method": method, "random_state": seed}
+           "num_permutations": K, "method": method, "random_state": seed, "total_num_permutations": user_mt}
     dist, null, pval, observed = results[0]
     for j, r in zip(jobs[1:], results[1:]):
         if r != results[0]:
@@ -83,7 +84,7 @@ def one(out: Outcome, rng, name, cls, params, ref, test, K, method, lines, expec
         out.violation(f"{name}: null statistic #{bad[0]} is {bad[1]!r} but the detector's own distance with its own parameters on that re-split is {bad[2]!r}", rep)
     arr = np.array(null)
     b, mm = int((arr >= dist).sum()), len(null)
-    mt = min(total, 1000000)
+    mt = min(total, 1000000) if user_mt is None else user_mt      # m_t: the user's value when given, else the documented default
     f = formulas(b, mm, mt)
     meth = "exact" if method == "auto" else method
     key = "approximate-as-coded" if meth == "approximate" else meth
@@ -99,7 +100,10 @@ def one(out: Outcome, rng, name, cls, params, ref, test, K, method, lines, expec
     if mt <= 5000:
         lines.append(f"pval {meth} {b} {mm} {mt}")
         expect.append((pval, rep))
-    out.case({"detector": name, "method": method, "K": K, "n": n, "m": m, "b": b, "jobs": list(jobs), "h": hash(tuple(ref + test)) & 0xFFFFFF})
+        # the whole p-value computation of the callback through the model (count, auto resolution, default/user m_t, formula)
+        lines.append(f"pv {method} {K} {'-' if user_mt is None else user_mt} {total} {f2h(dist)} " + " ".join(f2h(v) for v in null))
+        expect.append((pval, {**rep, "b": b, "wiring": True}))
+    out.case({"detector": name, "method": method, "K": K, "n": n, "m": m, "b": b, "jobs": list(jobs), "user_mt": user_mt, "h": hash(tuple(ref + test)) & 0xFFFFFF})
 
 
 def run(out: Outcome) -> None:
@@ -120,6 +124,12 @@ def run(out: Outcome) -> None:
                 test = [float(rng.randint(0, 3)) for _ in range(m)]
             method = methods[(i + rep_i) % len(methods)]
             one(out, rng, name, cls, params, ref, test, rng.choice([10, 20]), method, lines, expect, jobs=(1, 2) if i % 3 == 0 else (1,))
+    # a user-supplied total_num_permutations (e.g. the number of DISTINCT splits C(n+m, n)) is the m_t of the formulas
+    for meth in ("exact", "approximate", "auto", "conservative"):
+        n, m = rng.randint(3, 6), rng.randint(3, 6)
+        ref = [rng.gauss(0, 1) for _ in range(n)]
+        test = [rng.gauss(0.5, 1) for _ in range(m)]
+        one(out, rng, "EMD", EMD, {}, ref, test, rng.choice([8, 12]), meth, lines, expect, user_mt=rng.choice([math.comb(n + m, n), 250, 1000]))
     # identical samples: every null statistic ties with the observed one for symmetric statistics
     one(out, rng, "HI", HINormalizedComplement, {"num_bins": 4}, [0.0, 1.0, 2.0, 3.0, 1.0, 2.0], [0.0, 1.0, 2.0, 3.0, 1.0, 2.0], 15, "conservative", lines, expect)
     # enumerate-all branch (fewer permutations exist than requested)
@@ -159,6 +169,13 @@ def run(out: Outcome) -> None:
         out.findings["KF-C13-1"].hits += 1 if not close(formulas(0, 1, 2)["approximate-spec"], formulas(0, 1, 2)["approximate-as-coded"], 1e-12) else 0
     got = run_driver(lines)
     for g, (val, rep) in zip(got, expect):
+        if rep.get("wiring"):
+            toks = g.split(" ")
+            if len(toks) == 2 and int(toks[1]) == rep["b"] and close(h2f(toks[0][1:]), val, 1e-9):
+                out.traces_validated += 1
+            else:
+                out.mismatch(f"p-value model (whole computation) gives '{g}' where the implementation reports p={val!r} with b={rep['b']}", rep)
+            continue
         if close(h2f(g[1:]), val, 1e-9):
             out.traces_validated += 1
         else:
